@@ -20,7 +20,7 @@ def sh(cmd, **kw):
 env = dict(os.environ, PYTHONPATH=wt)
 res = {}
 try:
-    demo = f"/venv/bin/python {dst}/demo.py"
+    demo = f"/venv/bin/python {dst}/demo.py {wt}"
     r = subprocess.run(demo, shell=True, cwd=wt, env=env, capture_output=True, text=True, timeout=900)
     res["demo_clean_rc"] = r.returncode
     a = sh(f"git apply {dst}/patch.diff")
